@@ -32,6 +32,7 @@ CONSTANTS
   RM = FALSE
   Slots = 1
   RmUuids = {1, 2}
+  RmMonotone = FALSE
   Scrapes = FALSE
   HookScrapes = FALSE
   Marking = TRUE
